@@ -285,7 +285,7 @@ def run_shard(shard, acc, forced=None):
             return
         for s in range(shard["schedules"]):
             # (every shard has one schedule around the deeply nested script and one around the script with hundreds of routines)
-            sched = gen_schedule(rnd, pool, force={1: "deep", 2: "big"}.get(s))
+            sched = gen_schedule(rnd, pool, force={1: "deep", 2: "big", 3: "deep"}.get(s))
             if s == 0:
                 sched["cold"] = False  # the very first schedule of the process has genuinely cold caches anyway
             acc.announce("schedule", {"threads": len(sched["threads"]), "style": sched["style"]})
